@@ -41,8 +41,663 @@ Proof.
   - apply Forall_app. split.
     + eapply Forall_impl; [|exact F1]. intros t (A & B). split; [exact A|]. specialize (M2 (tev t)). lia.
     + eapply Forall_impl; [|exact F2]. intros t (A & B). split; [exact A|]. specialize (M1 (tev t)). lia.
-  - rewrite map_app. apply NoDup_app_iff'. split; [exact N1|]. split; [exact N2|].
-    intros k [Ha Hb]. apply in_map_iff in Ha, Hb. destruct Ha as [ta [Ka Ia]]. destruct Hb as [tb [Kb Ib]].
+  - rewrite map_app. apply NoDup_app_intro; [exact N1|exact N2|].
+    intros k Ha Hb. apply in_map_iff in Ha, Hb. destruct Ha as [ta [Ka Ia]]. destruct Hb as [tb [Kb Ib]].
     rewrite Forall_forall in F1, F2. specialize (F1 ta Ia). specialize (F2 tb Ib).
     unfold key in *. subst k. inversion Kb as [[He Hi]]. rewrite He in F2. lia.
 Qed.
+
+Lemma nth_upd_same : forall (nx : list nat) e v, e < length nx -> nth e (upd e v nx) 0 = v.
+Proof. intros. apply nth_upd_eq. assumption. Qed.
+
+Lemma make_track_id_fresh : forall nev ev nx (t : trk),
+  ev < nev -> length nx = nev -> tev t = ev -> tid t = nth ev nx 0 ->
+  fresh_batch nev nx (snd (make_track_id ev nx)) [t].
+Proof.
+  intros nev ev nx t Hev Hlen Ht Hid. unfold make_track_id. cbn [snd].
+  split; [apply upd_length|]. split.
+  - intros e. destruct (Nat.eq_dec e ev) as [->|Hne].
+    + rewrite nth_upd_same by lia. lia.
+    + rewrite nth_upd_neq by congruence. lia.
+  - split; [|cbn; constructor; [intros []|constructor]].
+    constructor; [|constructor]. rewrite Ht, Hid. rewrite nth_upd_same by lia. lia.
+Qed.
+
+(** adding a fresh batch to a well-formed population keeps it well-formed *)
+Lemma extend_fresh : forall nev nx nx' old new,
+  NoDup (map key old) -> Forall (bounded nev nx) old ->
+  fresh_batch nev nx nx' new ->
+  Forall (fun t => forall p, tpar t = Some p -> p < tid t) new ->
+  NoDup (map key (old ++ new)) /\ Forall (bounded nev nx') (old ++ new).
+Proof.
+  intros nev nx nx' old new Hnd Hb (L & M & F & N) Hp. split.
+  - rewrite map_app. apply NoDup_app_intro; [exact Hnd|exact N|].
+    intros k Ha Hc. apply in_map_iff in Ha, Hc. destruct Ha as [ta [Ka Ia]]. destruct Hc as [tb [Kb Ib]].
+    rewrite Forall_forall in Hb, F. specialize (Hb ta Ia). specialize (F tb Ib).
+    destruct Hb as (B1 & B2 & B3). unfold key in *. subst k. inversion Kb as [[He Hi]]. rewrite He in F. lia.
+  - apply Forall_app. split.
+    + eapply Forall_impl; [|exact Hb]. intros t (B1 & B2 & B3). split; [exact B1|]. split; [|exact B3].
+      specialize (M (tev t)). lia.
+    + rewrite Forall_forall in *. intros t Ht. destruct (F t Ht) as (A & B). split; [exact A|]. split; [lia|].
+      apply Hp. exact Ht.
+Qed.
+
+Lemma bounded_perm : forall nev nx a b, Permutation a b ->
+  NoDup (map key a) /\ Forall (bounded nev nx) a -> NoDup (map key b) /\ Forall (bounded nev nx) b.
+Proof.
+  intros nev nx a b Hp [H1 H2]. split.
+  - eapply Permutation_NoDup; [apply Permutation_map; exact Hp|exact H1].
+  - eapply Permutation_Forall; eauto.
+Qed.
+
+(** ** primaries *)
+
+Fixpoint issue_primaries (ps : list primary) (nx : list nat) : list trk * list nat :=
+  match ps with
+  | [] => ([], nx)
+  | p :: r =>
+    let '(id, nx1) := make_track_id (p_ev p) nx in
+    let '(ts, nx2) := issue_primaries r nx1 in
+    (mkTrk id None (p_ev p) (p_pid p) (p_bad p) :: ts, nx2)
+  end.
+
+Lemma issue_primaries_cons : forall p r nx,
+  issue_primaries (p :: r) nx =
+  (mkTrk (nth (p_ev p) nx 0) None (p_ev p) (p_pid p) (p_bad p)
+     :: fst (issue_primaries r (upd (p_ev p) (S (nth (p_ev p) nx 0)) nx)),
+   snd (issue_primaries r (upd (p_ev p) (S (nth (p_ev p) nx 0)) nx))).
+Proof.
+  intros. cbn [issue_primaries]. unfold make_track_id.
+  destruct (issue_primaries r _); reflexivity.
+Qed.
+
+Lemma issue_primaries_length : forall ps nx, length (fst (issue_primaries ps nx)) = length ps.
+Proof.
+  induction ps as [|p r IH]; intros nx; [reflexivity|]. rewrite issue_primaries_cons. cbn [fst length].
+  rewrite IH. reflexivity.
+Qed.
+
+(** the array written by ProcessPrimariesExecutor: exactly the old
+    initializers followed by the new ones, in thread order (index_after) *)
+Lemma process_primaries_arr : forall ps stk done nx cinit nprim,
+  cinit - nprim = length stk ->
+  fold_left (process_primary cinit nprim) (combine (seq (length done) (length ps)) ps)
+            (stk ++ done ++ repeat dflt_trk (length ps), nx)
+  = (stk ++ done ++ fst (issue_primaries ps nx), snd (issue_primaries ps nx)).
+Proof.
+  induction ps as [|p r IH]; intros stk done nx cinit nprim Hbase; [reflexivity|].
+  rewrite issue_primaries_cons. cbn [fst snd].
+  cbn [length seq combine fold_left repeat]. unfold process_primary at 2.
+  unfold make_track_id. cbn zeta.
+  set (t := mkTrk (nth (p_ev p) nx 0) None (p_ev p) (p_pid p) (p_bad p)).
+  set (nx1 := upd (p_ev p) (S (nth (p_ev p) nx 0)) nx).
+  assert (Hupd : upd (index_after (cinit - nprim) (length done)) t
+                     (stk ++ done ++ dflt_trk :: repeat dflt_trk (length r))
+                 = stk ++ (done ++ [t]) ++ repeat dflt_trk (length r)).
+  { unfold index_after. rewrite Hbase, <- app_length, app_assoc.
+    rewrite upd_app_exact. rewrite <- !app_assoc. reflexivity. }
+  rewrite Hupd.
+  specialize (IH stk (done ++ [t]) nx1 cinit nprim Hbase).
+  rewrite app_length in IH. cbn [length] in IH. rewrite Nat.add_1_r in IH. rewrite IH.
+  rewrite <- !app_assoc. reflexivity.
+Qed.
+
+Lemma issue_primaries_fresh : forall nev ps nx,
+  length nx = nev -> forallb (fun p => p_ev p <? nev) ps = true ->
+  fresh_batch nev nx (snd (issue_primaries ps nx)) (fst (issue_primaries ps nx)) /\
+  Forall (fun t => tpar t = None) (fst (issue_primaries ps nx)).
+Proof.
+  induction ps as [|p r IH]; intros nx Hlen Hev; [split; [apply fresh_batch_nil|constructor]|].
+  cbn [forallb] in Hev. apply andb_true_iff in Hev. destruct Hev as [Hp Hr]. apply Nat.ltb_lt in Hp.
+  rewrite issue_primaries_cons. cbn [fst snd].
+  pose proof (make_track_id_fresh nev (p_ev p) nx (mkTrk (nth (p_ev p) nx 0) None (p_ev p) (p_pid p) (p_bad p))
+                Hp Hlen eq_refl eq_refl) as Hf1.
+  unfold make_track_id in Hf1. cbn [snd] in Hf1.
+  set (nx1 := upd (p_ev p) (S (nth (p_ev p) nx 0)) nx) in *.
+  destruct (IH nx1 ltac:(unfold nx1; rewrite upd_length; exact Hlen) Hr) as [Hf2 Hn2].
+  split; [|constructor; [reflexivity|exact Hn2]].
+  change (mkTrk (nth (p_ev p) nx 0) None (p_ev p) (p_pid p) (p_bad p) :: fst (issue_primaries r nx1))
+    with ([mkTrk (nth (p_ev p) nx 0) None (p_ev p) (p_pid p) (p_bad p)] ++ fst (issue_primaries r nx1)).
+  eapply fresh_batch_app; eauto.
+Qed.
+
+(** exactly-once, primaries: the new stack is the old one followed by one
+    initializer per primary, with fresh ids *)
+Lemma insert_primaries_stack : forall cfg s ps s',
+  InvA cfg s -> insert_primaries cfg s ps = Ok s' ->
+  slots s' = slots s /\
+  stack s' = stack s ++ fst (issue_primaries ps (next_id s)) /\
+  next_id s' = snd (issue_primaries ps (next_id s)) /\
+  forallb (fun p => p_ev p <? n_events cfg) ps = true /\ ph s = Ready.
+Proof.
+  intros cfg s ps s' ((Hl & Hp & Hn) & Hlive & Hready & Hstep) H. unfold insert_primaries in H.
+  destruct (phase_eqb (ph s) Ready) eqn:Hph; cbn [negb] in H; [|discriminate].
+  destruct (forallb (fun p => p_ev p <? n_events cfg) ps) eqn:Hev; cbn [negb] in H; [|discriminate].
+  destruct (capacity cfg <? length ps + c_init (cnt s)) eqn:Hcap; [discriminate|].
+  apply phase_eqb_eq in Hph. rewrite Hph in Hlive.
+  destruct (Hlive ltac:(discriminate)) as (A & B & C & D).
+  unfold process_primaries in H.
+  pose proof (process_primaries_arr ps (stack s) [] (next_id s) (c_init (cnt s) + length ps) (length ps)
+                ltac:(lia)) as Harr.
+  cbn [length app] in Harr. rewrite Harr in H.
+  inversion H; subst s'; clear H. cbn. auto.
+Qed.
+
+Lemma InvB_insert_ok : forall cfg s ps s',
+  InvA cfg s -> InvB cfg s -> insert_primaries cfg s ps = Ok s' -> InvB cfg s'.
+Proof.
+  intros cfg s ps s' HA HB H.
+  destruct (insert_primaries_stack cfg s ps s' HA H) as (E1 & E2 & E3 & Hev & Hph).
+  destruct HA as ((Hl & Hp & Hn) & _).
+  destruct (HB ltac:(rewrite Hph; discriminate)) as [Hnd Hbd].
+  destruct (issue_primaries_fresh (n_events cfg) ps (next_id s) Hn Hev) as [Hf Hnone].
+  intros _. unfold all_tracks. rewrite E1, E2, E3, app_assoc.
+  apply extend_fresh with (nx := next_id s); auto.
+  eapply Forall_impl; [|exact Hnone]. intros t Ht p Hp'. congruence.
+Qed.
+
+(** ** initialize_tracks: the tracks in flight are only moved *)
+
+Definition wtrk (w : nat * trk * option nat) : trk := snd (fst w).
+
+Lemma active_tracks_mid : forall a o b x,
+  is_inactive o = true -> is_inactive x = false ->
+  Permutation (active_tracks (a ++ x :: b)) (str x :: active_tracks (a ++ o :: b)).
+Proof.
+  intros a o b x Hold Hnew.
+  change (x :: b) with ([x] ++ b). change (o :: b) with ([o] ++ b).
+  rewrite !active_tracks_app. unfold active_tracks at 2 5. unfold is_active. cbn [filter map].
+  rewrite Hold, Hnew. cbn [negb map app].
+  apply Permutation_sym. apply Permutation_middle.
+Qed.
+
+Lemma active_tracks_upd : forall sls i x,
+  i < length sls -> is_inactive (nth i sls dflt_slot) = true -> is_inactive x = false ->
+  Permutation (active_tracks (upd i x sls)) (str x :: active_tracks sls).
+Proof.
+  intros sls i x Hi Hold Hnew.
+  destruct (upd_split sls i x dflt_slot Hi) as [H1 H2].
+  pose proof (active_tracks_mid (firstn i sls) (nth i sls dflt_slot) (skipn (S i) sls) x Hold Hnew) as P.
+  rewrite <- H2 in P. rewrite H1. exact P.
+Qed.
+
+Lemma fold_init_write_tracks : forall ws sls,
+  NoDup (map wsid ws) ->
+  (forall w, In w ws -> wsid w < length sls /\ is_inactive (nth (wsid w) sls dflt_slot) = true) ->
+  Permutation (active_tracks (fold_left init_write ws sls)) (map wtrk ws ++ active_tracks sls).
+Proof.
+  induction ws as [|w ws IH]; intros sls Hnd Hin; [reflexivity|].
+  cbn [fold_left map] in *. inversion Hnd as [|? ? Hnotin Hnd']; subst.
+  destruct (Hin w (or_introl eq_refl)) as [Hlt Hina].
+  destruct w as [[sid ini] par]. unfold wsid in Hlt, Hina, Hnotin. cbn [fst] in Hlt, Hina, Hnotin.
+  set (x := mkSlot (if is_some par then Initializing else if tbad ini then Errored else Initializing)
+                   ini (ssecs (nth sid sls dflt_slot)) true).
+  assert (Hx : is_inactive x = false).
+  { unfold x, is_inactive. cbn. destruct (is_some par); [reflexivity|]. destruct (tbad ini); reflexivity. }
+  change (init_write sls (sid, ini, par)) with (upd sid x sls).
+  rewrite IH; [| exact Hnd' |].
+  - rewrite (active_tracks_upd sls sid x Hlt Hina Hx). unfold wtrk at 2. cbn [fst snd app].
+    change (str x) with ini. apply Permutation_sym. apply Permutation_middle.
+  - intros w' Hw'. destruct (Hin w' (or_intror Hw')) as [A B].
+    rewrite upd_length. split; [exact A|].
+    rewrite nth_upd_neq; [exact B|]. intros Heq. apply Hnotin. apply in_map_iff. exists w'. split; [symmetry; exact Heq|exact Hw'].
+Qed.
+
+Lemma iidx_window_perm : forall stk ci cv num_new charge,
+  num_new <= ci -> num_new <= cv -> ci = length stk ->
+  Permutation (map (fun t => nth (iidx stk ci num_new charge t) stk dflt_trk) (seq 0 num_new))
+              (skipn (ci - num_new) stk).
+Proof.
+  intros stk ci cv num_new charge Hci Hcv Hlen.
+  rewrite <- (map_nth_seq_skipn stk dflt_trk (ci - num_new) num_new ltac:(lia)).
+  rewrite <- (map_map (iidx stk ci num_new charge) (fun i => nth i stk dflt_trk)).
+  apply Permutation_map. apply NoDup_Permutation_bis.
+  - apply NoDup_map_seq. intros a b Ha Hb Heq. exact (iidx_inj stk ci cv num_new Hci Hcv charge a b Ha Hb Heq).
+  - rewrite map_length, !seq_length. lia.
+  - intros x Hx. apply in_map_iff in Hx. destruct Hx as [t [Ht Hin]]. apply in_seq in Hin. subst x.
+    apply in_seq. pose proof (iidx_range stk ci cv num_new Hci Hcv charge t ltac:(lia)). lia.
+Qed.
+
+(** exactly-once, initialisation: the multiset of tracks in flight (slots +
+    initializer stack) is unchanged; occupied slots are not written *)
+Lemma initialize_tracks_perm : forall cfg s s',
+  InvA cfg s -> initialize_tracks cfg s = Ok s' ->
+  Permutation (all_tracks s') (all_tracks s) /\ next_id s' = next_id s /\
+  (forall j, is_inactive (nth j (slots s) dflt_slot) = false -> j < length (slots s) ->
+             nth j (slots s') dflt_slot = nth j (slots s) dflt_slot).
+Proof.
+  intros cfg s s' Hinv H. pose proof Hinv as ((Hl & Hp & Hn) & Hlive & Hready & Hstep).
+  unfold initialize_tracks in H.
+  destruct (phase_eqb (ph s) Ready) eqn:Hph; cbn [negb] in H; [|discriminate].
+  apply phase_eqb_eq in Hph.
+  rewrite Hph in Hlive. destruct (Hlive ltac:(discriminate)) as (A & B & C & D).
+  destruct (Nat.min (c_vac (cnt s)) (c_init (cnt s)) =? 0) eqn:Hz.
+  - inversion H; subst s'; clear H. unfold all_tracks. cbn. auto.
+  - set (num_new := Nat.min (c_vac (cnt s)) (c_init (cnt s))) in *.
+    assert (Hcv : num_new <= c_vac (cnt s)) by (unfold num_new; lia).
+    assert (Hci : num_new <= c_init (cnt s)) by (unfold num_new; lia).
+    destruct (init_targets cfg s num_new Hinv Hph Hcv Hci) as [Hnd Htg].
+    cbn zeta in Hnd, Htg.
+    pose proof (fold_init_write_tracks _ (slots s) Hnd Htg) as Hperm.
+    destruct (fold_init_write _ (slots s) Hnd Htg (status_ready_inited _ D)) as (L & N & S & U).
+    inversion H; subst s'; clear H. unfold all_tracks. proj_simpl.
+    split; [|split; [reflexivity|]].
+    + rewrite Hperm. rewrite map_map.
+      assert (Hw : forall t, wtrk (init_thread cfg s
+                       (if charge_order cfg then partition_initializers (stack s) (c_init (cnt s)) num_new else [])
+                       num_new t)
+                     = nth (iidx (stack s) (c_init (cnt s)) num_new (charge_order cfg) t) (stack s) dflt_trk).
+      { intros t. unfold init_thread, wtrk, iidx. cbn [fst snd]. destruct (charge_order cfg); reflexivity. }
+      rewrite (map_ext _ _ Hw).
+      rewrite (iidx_window_perm (stack s) (c_init (cnt s)) (c_vac (cnt s)) num_new (charge_order cfg) Hci Hcv A).
+      rewrite <- (firstn_skipn (c_init (cnt s) - num_new) (stack s)) at 3.
+      rewrite <- app_assoc. rewrite Permutation_app_comm. rewrite <- app_assoc. reflexivity.
+    + intros j Hj Hlt. apply U. intros Hin. apply in_map_iff in Hin. destruct Hin as [w [Hw Hwin]].
+      destruct (Htg w Hwin) as [_ Hina]. rewrite Hw in Hina. congruence.
+Qed.
+
+Lemma InvB_initialize : forall cfg s s',
+  InvA cfg s -> InvB cfg s -> initialize_tracks cfg s = Ok s' -> InvB cfg s'.
+Proof.
+  intros cfg s s' HA HB H.
+  destruct (initialize_tracks_perm cfg s s' HA H) as (Hperm & Hnx & _).
+  assert (Hph : ph s = Ready).
+  { unfold initialize_tracks in H. destruct (phase_eqb (ph s) Ready) eqn:E; [apply phase_eqb_eq; exact E|discriminate]. }
+  intros _. rewrite Hnx. apply (bounded_perm _ _ (all_tracks s)); [apply Permutation_sym; exact Hperm|].
+  apply HB. rewrite Hph. discriminate.
+Qed.
+
+(** ** physics: identities untouched *)
+Lemma physics_slots_tracks : forall sls f, active_tracks (physics_slots sls f) = active_tracks sls.
+Proof.
+  unfold active_tracks, is_active. induction sls as [|x r IH]; intros f; cbn [physics_slots filter map]; [reflexivity|].
+  rewrite physics_slot_inactive.
+  assert (Hstr : str (physics_slot x (hd dflt_outcome f)) = str x).
+  { unfold physics_slot. destruct (sst x); reflexivity. }
+  destruct (is_inactive x); cbn [negb map]; rewrite IH; [reflexivity|]. rewrite Hstr. reflexivity.
+Qed.
+
+Lemma InvB_physics : forall cfg s f s', InvB cfg s -> physics_outcome cfg s f = Ok s' -> InvB cfg s'.
+Proof.
+  intros cfg s f s' HB H. unfold physics_outcome in H.
+  destruct (phase_eqb (ph s) Inited) eqn:Hph; cbn [negb] in H; [|discriminate].
+  apply phase_eqb_eq in Hph. inversion H; subst s'; clear H.
+  intros _. unfold all_tracks. proj_simpl. rewrite physics_slots_tracks.
+  apply HB. rewrite Hph. discriminate.
+Qed.
+
+(** ** extend_from_secondaries *)
+
+(** array-free specification of ProcessSecondariesExecutor for one slot:
+    (new slot, initializers pushed, new counters) *)
+Definition spec_slot (charge : bool) (sl : slot) (nx : list nat) : slot * list trk * list nat :=
+  if status_eqb (sst sl) Inactive then (sl, [], nx)
+  else
+    let '(ts, nx') := make_secondaries (tid (str sl)) (tev (str sl)) (live_secs sl) nx in
+    match ts, negb (status_eqb (sst sl) Alive) && negb charge with
+    | t0 :: rest, true => (mkSlot Initializing t0 (ssecs sl) true, rest, nx')
+    | _, _ => (if status_eqb (sst sl) Killed then mkSlot Inactive (str sl) (ssecs sl) (sused sl) else sl, ts, nx')
+    end.
+
+Fixpoint spec_all (charge : bool) (sls : list slot) (nx : list nat) : list slot * list trk * list nat :=
+  match sls with
+  | [] => ([], [], nx)
+  | sl :: r =>
+    let '(sl', q, nx1) := spec_slot charge sl nx in
+    let '(sls', qs, nx2) := spec_all charge r nx1 in
+    (sl' :: sls', q ++ qs, nx2)
+  end.
+
+(** scan_ranges_disjoint, operational form: the writes of one slot land
+    exactly on its own window [cinit - offset, cinit - offset + count) *)
+Lemma push_secondaries_arr : forall charge nslots cinit i alive ts offset pre junk post par,
+  length junk = length ts -> length pre = cinit - offset -> length ts <= offset -> offset <= cinit ->
+  fst (push_secondaries charge nslots cinit i alive offset ts (pre ++ junk ++ post) par) = pre ++ ts ++ post.
+Proof.
+  induction ts as [|t r IH]; intros offset pre junk post par Hj Hpre Hoff Hci.
+  - destruct junk; [reflexivity|discriminate].
+  - destruct junk as [|j0 junk']; [discriminate|]. cbn [push_secondaries].
+    cbn [length] in *. rewrite <- Hpre.
+    change ((j0 :: junk') ++ post) with (j0 :: junk' ++ post). rewrite upd_app_exact.
+    change (pre ++ t :: junk' ++ post) with (pre ++ [t] ++ junk' ++ post). rewrite app_assoc.
+    rewrite (IH (offset - 1) (pre ++ [t]) junk' post); [rewrite <- app_assoc; reflexivity|lia| |lia|lia].
+    rewrite app_length. cbn [length]. lia.
+Qed.
+
+Lemma locate_count : forall charge i sl nx,
+  snd (locate_alive charge i sl) = length (snd (fst (spec_slot charge sl nx))).
+Proof.
+  intros charge i sl nx. unfold locate_alive, spec_slot.
+  destruct (status_eqb (sst sl) Inactive) eqn:Hin.
+  { destruct (sst sl); try discriminate. reflexivity. }
+  destruct (make_secondaries_lengths (tid (str sl)) (tev (str sl)) (live_secs sl) nx) as [Hts _].
+  destruct (make_secondaries _ _ _ nx) as [ts nx']. cbn [fst] in Hts.
+  destruct (status_eqb (sst sl) Alive) eqn:Hal; cbn [negb andb].
+  - cbn [snd]. destruct ts; cbn [fst snd]; exact (eq_sym Hts).
+  - destruct ts as [|t0 rest]; cbn [length] in Hts; rewrite <- Hts; destruct charge; cbn; try reflexivity; lia.
+Qed.
+
+Lemma proc_slot_arr : forall charge nslots cinit total ps i sl sc pre junk post,
+  p_arr ps = pre ++ junk ++ post ->
+  length junk = snd (locate_alive charge i sl) ->
+  length pre = cinit - (total - sc) -> length junk <= total - sc -> total - sc <= cinit ->
+  let r := proc_slot charge nslots cinit total ps (i, sl, sc) in
+  let sp := spec_slot charge sl (p_nx ps) in
+  fst r = fst (fst sp) /\ p_arr (snd r) = pre ++ snd (fst sp) ++ post /\ p_nx (snd r) = snd sp.
+Proof.
+  intros charge nslots cinit total ps i sl sc pre junk post Harr Hj Hpre Hoff Hci. cbn zeta.
+  rewrite (locate_count charge i sl (p_nx ps)) in Hj.
+  unfold proc_slot, spec_slot in *.
+  destruct (status_eqb (sst sl) Inactive) eqn:Hin.
+  { cbn [fst snd length] in *. destruct junk; [|discriminate]. auto. }
+  destruct (make_secondaries (tid (str sl)) (tev (str sl)) (live_secs sl) (p_nx ps)) as [ts nx'].
+  destruct ts as [|t0 rest].
+  - cbn [fst snd length] in Hj. destruct junk; [|discriminate].
+    cbn [push_secondaries fst snd p_arr p_nx]. rewrite Harr. auto.
+  - destruct (negb (status_eqb (sst sl) Alive) && negb charge) eqn:Hcond; cbn [fst snd] in Hj.
+    + pose proof (push_secondaries_arr charge nslots cinit i (status_eqb (sst sl) Alive) rest (total - sc)
+                    pre junk post (p_par ps) Hj Hpre ltac:(lia) Hci) as Hp.
+      rewrite Harr. destruct (push_secondaries _ _ _ _ _ _ rest _ _) as [arr par]. cbn [fst snd p_arr p_nx] in *.
+      subst arr. auto.
+    + pose proof (push_secondaries_arr charge nslots cinit i (status_eqb (sst sl) Alive) (t0 :: rest) (total - sc)
+                    pre junk post (p_par ps) Hj Hpre ltac:(lia) Hci) as Hp.
+      rewrite Harr. destruct (push_secondaries _ _ _ _ _ _ (t0 :: rest) _ _) as [arr par]. cbn [fst snd p_arr p_nx] in *.
+      subst arr. auto.
+Qed.
+
+Lemma spec_all_cons : forall charge sl r nx,
+  spec_all charge (sl :: r) nx =
+  (fst (fst (spec_slot charge sl nx)) :: fst (fst (spec_all charge r (snd (spec_slot charge sl nx)))),
+   snd (fst (spec_slot charge sl nx)) ++ snd (fst (spec_all charge r (snd (spec_slot charge sl nx)))),
+   snd (spec_all charge r (snd (spec_slot charge sl nx)))).
+Proof.
+  intros. cbn [spec_all]. destruct (spec_slot charge sl nx) as [[sl' q] nx1]. cbn [fst snd].
+  destruct (spec_all charge r nx1) as [[sls' qs] nx2]. reflexivity.
+Qed.
+
+Lemma exclusive_scan_cons : forall acc x r,
+  exclusive_scan acc (x :: r) = (acc :: fst (exclusive_scan (acc + x) r), snd (exclusive_scan (acc + x) r)).
+Proof. intros. cbn [exclusive_scan]. destruct (exclusive_scan (acc + x) r); reflexivity. Qed.
+
+(** the whole grid: the initializer array after ProcessSecondaries is the old
+    stack followed by the pushed secondaries of slot 0, 1, ... in order; no
+    default entry is left, nothing is overwritten *)
+Lemma proc_all_arr : forall charge nslots cinit total stk sls i W P ps,
+  W + list_sum (map snd (locate_all charge i sls)) = total ->
+  cinit = length stk + total -> length P = W ->
+  p_arr ps = stk ++ P ++ repeat dflt_trk (total - W) ->
+  let r := proc_all charge nslots cinit total ps i sls
+             (fst (exclusive_scan W (map snd (locate_all charge i sls)))) in
+  let sp := spec_all charge sls (p_nx ps) in
+  fst r = fst (fst sp) /\ p_arr (snd r) = stk ++ P ++ snd (fst sp) /\ p_nx (snd r) = snd sp.
+Proof.
+  induction sls as [|sl rest IH]; intros i W P ps Htot Hci HP Harr; cbn zeta.
+  - cbn in Htot. cbn [locate_all map exclusive_scan fst proc_all spec_all snd].
+    rewrite Harr. replace (total - W) with 0 by lia. cbn [repeat]. auto.
+  - cbn [locate_all map] in *. rewrite exclusive_scan_cons. cbn [fst proc_all].
+    rewrite spec_all_cons. cbn [fst snd].
+    set (c := snd (locate_alive charge i sl)) in *.
+    cbn [list_sum fold_right] in Htot. fold (list_sum (map snd (locate_all charge (S i) rest))) in Htot.
+    assert (Hsplit : repeat dflt_trk (total - W) = repeat dflt_trk c ++ repeat dflt_trk (total - W - c)).
+    { rewrite <- repeat_app. f_equal. lia. }
+    pose proof (proc_slot_arr charge nslots cinit total ps i sl W (stk ++ P) (repeat dflt_trk c)
+                  (repeat dflt_trk (total - W - c))) as Hs.
+    cbn zeta in Hs. destruct Hs as (S1 & S2 & S3).
+    { rewrite Harr, Hsplit, <- app_assoc. reflexivity. }
+    { apply repeat_length. }
+    { rewrite app_length. lia. }
+    { rewrite repeat_length. lia. }
+    { lia. }
+    destruct (proc_slot charge nslots cinit total ps (i, sl, W)) as [sl' ps'] eqn:Hp. cbn [fst snd] in *.
+    set (q := snd (fst (spec_slot charge sl (p_nx ps)))) in *.
+    assert (Hq : length q = c) by (unfold q, c; symmetry; apply locate_count).
+    specialize (IH (S i) (W + c) (P ++ q) ps' ltac:(lia) Hci ltac:(rewrite app_length; lia)).
+    cbn zeta in IH. destruct IH as (I1 & I2 & I3).
+    { rewrite S2. rewrite <- !app_assoc. f_equal. f_equal. f_equal. f_equal. lia. }
+    destruct (proc_all charge nslots cinit total ps' (S i) rest _) as [sls' ps''] eqn:Hq'. cbn [fst snd] in *.
+    rewrite S3 in *. split; [rewrite S1, I1; reflexivity|]. split; [|exact I3].
+    rewrite I2. rewrite <- !app_assoc. reflexivity.
+Qed.
+
+(** *** identities created by ProcessSecondaries *)
+
+Definition survivors (sls : list slot) : list trk :=
+  map str (filter (fun sl => status_eqb (sst sl) Alive) sls).
+
+Lemma make_secondaries_cons : forall p ev k r nx,
+  make_secondaries p ev (k :: r) nx =
+  (mk_secondary p ev (nth ev nx 0) k :: fst (make_secondaries p ev r (upd ev (S (nth ev nx 0)) nx)),
+   snd (make_secondaries p ev r (upd ev (S (nth ev nx 0)) nx))).
+Proof.
+  intros. cbn [make_secondaries]. unfold make_track_id.
+  destruct (make_secondaries p ev r _); reflexivity.
+Qed.
+
+Lemma make_secondaries_fresh : forall nev p ev ks nx,
+  ev < nev -> length nx = nev ->
+  fresh_batch nev nx (snd (make_secondaries p ev ks nx)) (fst (make_secondaries p ev ks nx)) /\
+  Forall (fun t => tev t = ev /\ tpar t = Some p) (fst (make_secondaries p ev ks nx)).
+Proof.
+  induction ks as [|k r IH]; intros nx Hev Hlen; [split; [apply fresh_batch_nil|constructor]|].
+  rewrite make_secondaries_cons. cbn [fst snd].
+  pose proof (make_track_id_fresh nev ev nx (mk_secondary p ev (nth ev nx 0) k) Hev Hlen eq_refl eq_refl) as Hf1.
+  unfold make_track_id in Hf1. cbn [snd] in Hf1.
+  set (nx1 := upd ev (S (nth ev nx 0)) nx) in *.
+  destruct (IH nx1 Hev ltac:(unfold nx1; rewrite upd_length; exact Hlen)) as [Hf2 Hn2].
+  split; [|constructor; [split; reflexivity|exact Hn2]].
+  change (mk_secondary p ev (nth ev nx 0) k :: fst (make_secondaries p ev r nx1))
+    with ([mk_secondary p ev (nth ev nx 0) k] ++ fst (make_secondaries p ev r nx1)).
+  eapply fresh_batch_app; eauto.
+Qed.
+
+Lemma spec_slot_tracks : forall nev charge sl nx,
+  status_ok Interacted (sst sl) -> length nx = nev ->
+  (is_active sl = true -> tev (str sl) < nev) ->
+  exists news,
+    fresh_batch nev nx (snd (spec_slot charge sl nx)) news /\
+    Forall (fun t => tev t = tev (str sl) /\ tpar t = Some (tid (str sl))) news /\
+    Permutation (active_tracks [fst (fst (spec_slot charge sl nx))] ++ snd (fst (spec_slot charge sl nx)))
+                (survivors [sl] ++ news).
+Proof.
+  intros nev charge sl nx Hst Hlen Hev. unfold spec_slot.
+  destruct (status_eqb (sst sl) Inactive) eqn:Hin.
+  { exists []. cbn [fst snd]. split; [apply fresh_batch_nil|]. split; [constructor|].
+    unfold active_tracks, survivors, is_active, is_inactive. cbn [filter]. rewrite Hin.
+    destruct (sst sl); try discriminate. cbn. constructor. }
+  assert (Hact : is_active sl = true) by (unfold is_active, is_inactive; rewrite Hin; reflexivity).
+  destruct (make_secondaries_fresh nev (tid (str sl)) (tev (str sl)) (live_secs sl) nx (Hev Hact) Hlen) as [Hf Hp].
+  destruct (make_secondaries (tid (str sl)) (tev (str sl)) (live_secs sl) nx) as [ts nx'].
+  cbn [fst snd] in Hf, Hp. exists ts.
+  cbn in Hst. destruct Hst as [Hs|[Hs|Hs]]; rewrite Hs in *; try discriminate; cbn [status_eqb negb andb].
+  - (* alive: the slot is untouched, every secondary is pushed *)
+    assert (E : (match ts with | t0 :: rest => (sl, ts, nx') | [] => (sl, ts, nx') end) = (sl, ts, nx')) by (destruct ts; reflexivity).
+    replace (match ts with | [] => (sl, ts, nx') | _ :: _ => (sl, ts, nx') end) with (sl, ts, nx') by (destruct ts; reflexivity).
+    cbn [fst snd]. split; [exact Hf|]. split; [exact Hp|].
+    unfold active_tracks, survivors, is_active, is_inactive. cbn [filter]. rewrite Hs. cbn. reflexivity.
+  - (* killed *)
+    destruct ts as [|t0 rest]; [|destruct charge]; cbn [negb fst snd].
+    + split; [exact Hf|]. split; [exact Hp|].
+      unfold active_tracks, survivors, is_active, is_inactive. cbn [filter sst]. rewrite Hs. cbn. constructor.
+    + split; [exact Hf|]. split; [exact Hp|].
+      unfold active_tracks, survivors, is_active, is_inactive. cbn [filter sst]. rewrite Hs. cbn. reflexivity.
+    + split; [exact Hf|]. split; [exact Hp|].
+      unfold active_tracks, survivors, is_active, is_inactive. cbn [filter sst]. rewrite Hs. cbn. reflexivity.
+Qed.
+
+Lemma perm_4 : forall {A} (a b c d : list A), Permutation ((a ++ c) ++ b ++ d) ((a ++ b) ++ c ++ d).
+Proof.
+  intros. rewrite <- !app_assoc. apply Permutation_app_head. rewrite !app_assoc.
+  apply Permutation_app_tail. apply Permutation_app_comm.
+Qed.
+
+Lemma spec_all_tracks : forall nev charge sls nx,
+  Forall (fun sl => status_ok Interacted (sst sl)) sls -> length nx = nev ->
+  Forall (fun sl => is_active sl = true ->
+                    tev (str sl) < nev /\ tid (str sl) < nth (tev (str sl)) nx 0) sls ->
+  exists news,
+    fresh_batch nev nx (snd (spec_all charge sls nx)) news /\
+    Forall (fun t => forall p, tpar t = Some p -> p < tid t) news /\
+    Permutation (active_tracks (fst (fst (spec_all charge sls nx))) ++ snd (fst (spec_all charge sls nx)))
+                (survivors sls ++ news).
+Proof.
+  induction sls as [|sl r IH]; intros nx Hst Hlen Hb.
+  - exists []. cbn. split; [apply fresh_batch_nil|]. split; constructor.
+  - pose proof (Forall_inv Hst) as Hs1. pose proof (Forall_inv_tail Hst) as Hsr.
+    pose proof (Forall_inv Hb) as Hb1. pose proof (Forall_inv_tail Hb) as Hbr. cbn beta in Hs1, Hb1.
+    rewrite spec_all_cons. cbn [fst snd].
+    destruct (spec_slot_tracks nev charge sl nx Hs1 Hlen (fun a => proj1 (Hb1 a))) as (n1 & F1 & P1 & M1).
+    set (nx1 := snd (spec_slot charge sl nx)) in *.
+    assert (Hlen1 : length nx1 = nev) by (destruct F1 as (L & _); congruence).
+    destruct (IH nx1 Hsr Hlen1) as (n2 & F2 & Q2 & M2).
+    { eapply Forall_impl; [|exact Hbr]. intros x Hx Ha. destruct (Hx Ha) as [A B]. split; [exact A|].
+      destruct F1 as (_ & Mono & _). specialize (Mono (tev (str x))). lia. }
+    exists (n1 ++ n2). split; [eapply fresh_batch_app; eauto|]. split.
+    + apply Forall_app. split; [|exact Q2].
+      rewrite Forall_forall in *. intros t Ht p Hp.
+      destruct (P1 t Ht) as [Pe Pp]. rewrite Pp in Hp. inversion Hp; subst p.
+      pose proof F1 as (_ & _ & Fr & _). rewrite Forall_forall in Fr. destruct (Fr t Ht) as [_ Fr'].
+      (* the parent is the (active) track of this slot *)
+      assert (Ha : is_active sl = true).
+      { destruct (is_active sl) eqn:E; [reflexivity|exfalso].
+        unfold is_active in E. apply negb_false_iff in E. unfold is_inactive in E.
+        unfold spec_slot in M1. rewrite E in M1. cbn [fst snd] in M1.
+        unfold active_tracks, survivors, is_active, is_inactive in M1. cbn [filter] in M1. rewrite E in M1.
+        destruct (sst sl); try discriminate. cbn in M1. apply Permutation_nil in M1. subst n1. destruct Ht. }
+      destruct (Hb1 Ha) as [_ Hlt]. rewrite Pe in Fr'. lia.
+    + change (fst (fst (spec_slot charge sl nx)) :: fst (fst (spec_all charge r nx1)))
+        with ([fst (fst (spec_slot charge sl nx))] ++ fst (fst (spec_all charge r nx1))).
+      rewrite active_tracks_app.
+      change (survivors (sl :: r)) with (survivors ([sl] ++ r)).
+      unfold survivors at 1. rewrite filter_app, map_app. fold (survivors [sl]). fold (survivors r).
+      rewrite perm_4. rewrite M1, M2. apply perm_4.
+Qed.
+
+Lemma NoDup_map_filter : forall {A B} (g : A -> B) (f : A -> bool) l, NoDup (map g l) -> NoDup (map g (filter f l)).
+Proof.
+  induction l as [|x r IH]; intros H; cbn; [constructor|]. inversion H as [|? ? Hx Hr]; subst.
+  destruct (f x); cbn; [|apply IH; exact Hr]. constructor; [|apply IH; exact Hr].
+  intros Hin. apply Hx. apply in_map_iff in Hin. destruct Hin as [y [Hy Hyin]]. apply filter_In in Hyin.
+  apply in_map_iff. exists y. tauto.
+Qed.
+
+Lemma survivors_sub : forall sls, exists rest, Permutation (active_tracks sls) (survivors sls ++ rest).
+Proof.
+  induction sls as [|sl r [rest IH]]; [exists []; constructor|].
+  unfold active_tracks, survivors, is_active, is_inactive in *. cbn [filter].
+  destruct (sst sl); cbn [status_eqb negb map].
+  - exists rest. exact IH.
+  - exists (str sl :: rest). rewrite IH. apply Permutation_middle.
+  - exists rest. cbn. constructor. exact IH.
+  - exists (str sl :: rest). rewrite IH. apply Permutation_middle.
+  - exists (str sl :: rest). rewrite IH. apply Permutation_middle.
+Qed.
+
+(** exactly-once, secondaries: the population after the step is the alive
+    tracks and the old stack plus one fresh track per emitted secondary *)
+Lemma extend_from_secondaries_tracks : forall cfg s s',
+  InvA cfg s -> InvB cfg s -> extend_from_secondaries cfg s = Ok s' ->
+  exists news,
+    Permutation (all_tracks s') ((survivors (slots s) ++ stack s) ++ news) /\
+    fresh_batch (n_events cfg) (next_id s) (next_id s') news /\
+    Forall (fun t => forall p, tpar t = Some p -> p < tid t) news /\
+    slots s' = fst (fst (spec_all (charge_order cfg) (slots s) (next_id s))).
+Proof.
+  intros cfg s s' ((Hl & Hp & Hn) & Hlive & Hready & Hstep) HB H.
+  unfold extend_from_secondaries in H.
+  destruct (phase_eqb (ph s) Interacted) eqn:Hph; cbn [negb] in H; [|discriminate].
+  apply phase_eqb_eq in Hph. rewrite Hph in Hlive.
+  destruct (Hlive ltac:(discriminate)) as (A & B & C & D).
+  destruct (HB ltac:(rewrite Hph; discriminate)) as [Hnd Hbd].
+  pose proof (exclusive_scan_total (map snd (locate_all (charge_order cfg) 0 (slots s))) 0) as Htot.
+  destruct (exclusive_scan 0 (map snd (locate_all (charge_order cfg) 0 (slots s)))) as [scan total] eqn:Hscan.
+  cbn [snd] in Htot.
+  destruct (capacity cfg <? c_init (cnt s) + total) eqn:Hcap; [discriminate|].
+  pose proof (proc_all_arr (charge_order cfg) (n_slots cfg) (c_init (cnt s) + total) total (stack s) (slots s) 0 0 []
+                (mkP (stack s ++ repeat dflt_trk total) (parents s) (next_id s))
+                ltac:(lia) ltac:(lia) eq_refl) as Harr.
+  cbn zeta in Harr. rewrite Hscan in Harr. cbn [fst p_arr p_nx app] in Harr.
+  rewrite Nat.sub_0_r in Harr. specialize (Harr eq_refl). destruct Harr as (R1 & R2 & R3).
+  destruct (proc_all _ _ _ _ _ _ _ _) as [slots' ps] eqn:Hpa. cbn [fst snd] in *.
+  inversion H; subst s'; clear H.
+  destruct (spec_all_tracks (n_events cfg) (charge_order cfg) (slots s) (next_id s) D Hn) as (news & F & Q & M).
+  { rewrite Forall_forall. intros sl Hin Ha.
+    assert (Hin' : In (str sl) (all_tracks s)).
+    { unfold all_tracks, active_tracks. apply in_or_app. left. apply in_map. apply filter_In. auto. }
+    rewrite Forall_forall in Hbd. destruct (Hbd _ Hin') as (B1 & B2 & _). auto. }
+  exists news. unfold all_tracks. proj_simpl. rewrite R1, R2, R3.
+  split; [|split; [exact F|split; [exact Q|reflexivity]]].
+  rewrite (Permutation_app_comm (stack s)). rewrite app_assoc. rewrite M.
+  rewrite <- !app_assoc. apply Permutation_app_head. apply Permutation_app_comm.
+Qed.
+
+Lemma InvB_extend_sec : forall cfg s s',
+  InvA cfg s -> InvB cfg s -> extend_from_secondaries cfg s = Ok s' -> InvB cfg s'.
+Proof.
+  intros cfg s s' HA HB H.
+  destruct (extend_from_secondaries_tracks cfg s s' HA HB H) as (news & P & F & Q & _).
+  assert (Hph : ph s = Interacted).
+  { unfold extend_from_secondaries in H. destruct (phase_eqb (ph s) Interacted) eqn:E; [apply phase_eqb_eq; exact E|discriminate]. }
+  destruct (HB ltac:(rewrite Hph; discriminate)) as [Hnd Hbd].
+  intros _. apply (bounded_perm _ _ _ _ (Permutation_sym P)).
+  destruct (survivors_sub (slots s)) as [rest Hrest].
+  assert (Hall : Permutation (all_tracks s) ((survivors (slots s) ++ stack s) ++ rest)).
+  { unfold all_tracks. rewrite Hrest. rewrite <- !app_assoc. apply Permutation_app_head. apply Permutation_app_comm. }
+  destruct (bounded_perm _ _ _ _ Hall (conj Hnd Hbd)) as [Hnd2 Hbd2].
+  rewrite map_app in Hnd2. apply NoDup_app_elim in Hnd2. destruct Hnd2 as (N1 & _ & _).
+  apply Forall_app in Hbd2. destruct Hbd2 as [B1 _].
+  eapply extend_fresh; eauto.
+Qed.
+
+(** ** reset / reseed / extend_from_primaries / errors *)
+
+Lemma active_tracks_all_inactive : forall sls,
+  Forall (fun sl => is_inactive sl = true) sls -> active_tracks sls = [].
+Proof.
+  unfold active_tracks, is_active. induction sls as [|x r IH]; intros H; [reflexivity|].
+  inversion H; subst. cbn [filter]. rewrite H2. cbn. apply IH. assumption.
+Qed.
+
+Lemma InvB_reset : forall cfg s s', reset cfg s = Ok s' -> InvB cfg s' /\ all_tracks s' = [].
+Proof.
+  intros cfg s s' H. unfold reset in H. inversion H; subst s'; clear H.
+  assert (E : all_tracks (mkState (map (fun sl => mkSlot Inactive (str sl) (ssecs sl) (sused sl)) (slots s)) []
+                            (parents s) (seq 0 (n_slots cfg)) (mkCnt 0 0 (n_slots cfg) 0 0 0) (next_id s) Ready) = []).
+  { unfold all_tracks. cbn [slots stack]. rewrite active_tracks_all_inactive by apply map_reset_inactive. reflexivity. }
+  split; [|exact E]. intros _. rewrite E. split; constructor.
+Qed.
+
+Lemma drained_no_tracks : forall cfg s, InvA cfg s -> ph s = Ready -> drained s = true -> all_tracks s = [].
+Proof.
+  intros cfg s (_ & Hlive & _) Hph Hd. rewrite Hph in Hlive. destruct (Hlive ltac:(discriminate)) as (A & _).
+  unfold drained in Hd. apply andb_true_iff in Hd. destruct Hd as [H1 H2]. apply Nat.eqb_eq in H2.
+  unfold all_tracks. rewrite active_tracks_all_inactive.
+  - destruct (stack s); [reflexivity|]. cbn in A. lia.
+  - rewrite forallb_forall in H1. apply Forall_forall. exact H1.
+Qed.
+
+Lemma InvB_reseed : forall cfg s s', InvA cfg s -> reseed cfg s = Ok s' -> InvB cfg s'.
+Proof.
+  intros cfg s s' HA H. unfold reseed in H.
+  destruct (phase_eqb (ph s) Ready) eqn:Hph; cbn [negb] in H; [|discriminate].
+  destruct (drained s) eqn:Hd; cbn [negb] in H; [|discriminate].
+  apply phase_eqb_eq in Hph. inversion H; subst s'; clear H.
+  pose proof (drained_no_tracks cfg s HA Hph Hd) as E.
+  intros _. unfold all_tracks in *. proj_simpl. rewrite E. split; constructor.
+Qed.
+
+Lemma InvB_extend_prim : forall cfg s s', InvB cfg s -> extend_from_primaries cfg s = Ok s' -> InvB cfg s'.
+Proof.
+  intros cfg s s' HB H. unfold extend_from_primaries in H.
+  destruct (phase_eqb (ph s) Ready) eqn:Hph; cbn [negb] in H; [|discriminate].
+  apply phase_eqb_eq in Hph. inversion H; subst s'; clear H.
+  intros _. unfold all_tracks. proj_simpl. apply HB. rewrite Hph. discriminate.
+Qed.
+
+Lemma InvB_init : forall cfg, InvB cfg (init_state cfg).
+Proof.
+  intros cfg _. unfold all_tracks, init_state. cbn [slots stack].
+  rewrite active_tracks_all_inactive by apply repeat_dflt_inactive. split; constructor.
+Qed.
+
+Lemma InvB_of_failed : forall cfg s, ph s = Failed -> InvB cfg s.
+Proof. intros cfg s H Hc. contradiction. Qed.
